@@ -120,6 +120,31 @@ def run(tier, seed):
     ev.add_tlc("GradPurity.tla: probe protocol with a fault at every evaluation, invariant Restored; scenarios emitted", r)
     if r.violated:
         vd.violation({"what": f"design-level: GradPurity.tla violates {r.violated}", "counterexample": r.cex[:4000], "clause": "design", "form": "-", "backend": "-", "kind": "-", "k": 0})
+    # the same protocol with an UNBOUNDED number of probes per parameter: Apalache proves that IndInv (which contains Restored) is
+    # inductive - Init => IndInv and IndInv /\ Next => IndInv' - for every PR in 1..1000 (spec/grad/GradPurityInd.tla)
+    import shutil
+    import subprocess
+    import tempfile
+    apa = shutil.which("apalache-mc")
+    if apa is None:
+        raise MachineryError("apalache-mc is not on PATH")
+    adir = tempfile.mkdtemp(prefix="apa-", dir=common.scratch())
+    shutil.copy(os.path.join(common.VERIF, "spec", "grad", "GradPurityInd.tla"), adir)
+    proved = []
+    for init, length in (("Init", 0), ("IndInit", 1)):
+        pr = subprocess.run([apa, "check", "--cinit=ConstInit", f"--init={init}", "--inv=IndInv", f"--length={length}",
+                             f"--out-dir={os.path.join(adir, 'out')}", "GradPurityInd.tla"], cwd=adir, stdout=subprocess.PIPE,
+                            stderr=subprocess.STDOUT, text=True, timeout=900)
+        ok = "EXITCODE: OK" in pr.stdout
+        proved.append(ok)
+        if not ok and "EXITCODE: ERROR (12)" not in pr.stdout:
+            raise MachineryError(f"apalache-mc failed: {pr.stdout[-600:]}")
+    ev.cov["apalache_inductive_invariant"] = {"module": "GradPurityInd.tla", "init_implies_inv": proved[0], "inv_is_inductive": proved[1],
+                                              "probes_per_parameter": "1..1000", "parameters": 2}
+    if not all(proved):
+        vd.violation({"what": "design-level: Apalache could not establish the inductive invariant of GradPurityInd.tla", "clause": "design",
+                      "form": "-", "backend": "-", "kind": "-", "k": 0})
+    shutil.rmtree(adir, ignore_errors=True)
     scen = [p for p in r.prints if isinstance(p, dict) and "form" in p]
     if len(scen) < 100:
         raise MachineryError(f"only {len(scen)} scenarios emitted")
